@@ -358,6 +358,7 @@ pub fn run(ctx: &mut Ctx) {
     super::replay_corpus(ctx, replay);
     ctx.run_suite(&LeakSuite);
     ctx.run_suite(&super::frontdoor::FrontDoorSuite);
+    ctx.run_suite(&super::c20quic::H3LeakSuite);
     ctx.assume("covers the log records the in-memory scenarios produce (tunnel, ping, speedtest, reverse proxy, demultiplexer meta, start-up); code reached only through real TLS / QUIC sockets (e.g. the trace line with the raw SNI in on_new_tls_connection) is covered only as far as the same values pass through these paths");
     ctx.assume("the user name alone is not treated as a secret; the Proxy-Authorization value is (verbatim and decoded)");
 }
@@ -366,6 +367,7 @@ pub fn replay(ctx: &mut Ctx, suite: &str, case: &Value) -> bool {
     match suite {
         "log-canaries" => ctx.replay_suite(&LeakSuite, case),
         "tls-front-door" => ctx.replay_suite(&super::frontdoor::FrontDoorSuite, case),
+        "h3-log-canaries" => ctx.replay_suite(&super::c20quic::H3LeakSuite, case),
         _ => false,
     }
 }
